@@ -228,3 +228,36 @@ Qed.
 Theorem collect_all_agree attrs f :
   collect attrs = Some (Some f) -> forall a, In a attrs -> parse_fp a = Some f.
 Proof. intros H. apply (collect_from_agree attrs None f H). Qed.
+
+(* ------------------------------------------------------------------ the comparison in handle_certificate *)
+Lemma str_eqb_eq a : forall b, str_eqb a b = true <-> a = b.
+Proof.
+  induction a as [| x a IH]; intros [| y b]; cbn; split; intros H; try discriminate; auto.
+  - apply andb_prop in H. destruct H as (H1 & H2). apply Z.eqb_eq in H1. apply IH in H2. congruence.
+  - injection H as -> ->. rewrite Z.eqb_refl. apply IH. reflexivity.
+Qed.
+
+Theorem fp_accepts_iff expected digest : fp_accepts expected digest = true <-> expected = render digest.
+Proof. apply str_eqb_eq. Qed.
+
+(* a strict prefix of the digest string (in particular the empty string) is not accepted *)
+Theorem fp_prefix_rejected expected rest digest :
+  render digest = expected ++ rest -> rest <> [] -> fp_accepts expected digest = false.
+Proof.
+  intros Hr Hne. destruct (fp_accepts expected digest) eqn:E; [| reflexivity].
+  apply fp_accepts_iff in E. rewrite E in Hr. exfalso. apply Hne.
+  assert (H : length (render digest) = length (render digest ++ rest)) by (rewrite <- Hr; reflexivity).
+  rewrite app_length in H. destruct rest; [reflexivity | cbn in H; lia].
+Qed.
+
+(* end to end: an SDP value and a certificate digest are accepted together iff the value's hex digits are
+   the digest's (all of them) *)
+Theorem sdp_value_accepts_digest v e d :
+  d <> [] -> Forall (fun b => 0 <= b < 256) d -> normalize v = Some e ->
+  (fp_accepts e d = true <-> canon v = hexdigits d).
+Proof.
+  intros Hne Hd Hn. destruct (normalize_render d Hne Hd) as (_ & Hiff).
+  rewrite fp_accepts_iff. split.
+  - intros ->. apply Hiff, Hn.
+  - intros Hc. apply Hiff in Hc. congruence.
+Qed.
